@@ -422,8 +422,12 @@ class Ctx(object):
             'coverage': cov, 'assumptions': self.assumptions, 'wall_s': round(wall, 2),
             'violations': len(self.violations),
         }
-        os.makedirs(os.path.join(VERIF, 'evidence'), exist_ok=True)
-        with open(os.path.join(VERIF, 'evidence', '%s.json' % self.pid), 'w') as f:
+        # evidence/ describes runs against /repo itself; a run against another tree (VERIF_REPO = a scratch
+        # worktree with a seeded change) must not overwrite it
+        evdir = 'evidence' if os.path.realpath(REPO) == '/repo' else 'evidence_scratch'
+        ev['repo'] = REPO
+        os.makedirs(os.path.join(VERIF, evdir), exist_ok=True)
+        with open(os.path.join(VERIF, evdir, '%s.json' % self.pid), 'w') as f:
             json.dump(ev, f, indent=1, sort_keys=True, default=repr)
         self.log('obligations %d/%d, evaluations %d, distinct non-trivial %d, violations %d, known findings %d'
                  % (ndis, nob, self.evaluations, len(self.distinct), len(self.violations), len(self.known)))
